@@ -241,9 +241,9 @@ func runC05(c *Checker) {
 	ruleDUPLEX(c)
 	// LAYERS: the end-to-end statement is the composition of the layers below; it fails as soon as
 	// one of them does. The obligations of the delivery (C01), progress (C06), concurrency (C18),
-	// record-layer (C08, C02) and framing (C16) checks are therefore part of this check, under
+	// record-layer (C08, C02), framing (C16), stream-contract (C15) and codec (C19) checks are therefore part of this check, under
 	// "LAYER/<property>:<rule>" (their own not-decided parts stay not decided here).
-	importLayers(c, "C01", "C06", "C18", "C08", "C02", "C16")
+	importLayers(c, "C01", "C06", "C18", "C08", "C02", "C16", "C15", "C19")
 }
 
 // ruleLOCKBAL: in package pkg no mutex is acquired while it may already be held by the same
@@ -611,6 +611,49 @@ func ruleAcceptDial(c *Checker) {
 			}
 			c.decide(fresh, "SIDFRESH", name+"|constructor gets the fresh SID", instrPos(ctor[0]), "the sid handed to "+sd.newCtor+" is the value just computed", "the new connection is created with a stale SID")
 		}
+		// the connection that is handed out is the one that is remembered: every success return returns
+		// the mailboxConn field, or a value that a dominating store has put there. Otherwise the next
+		// Accept/Dial waits on an older (already closed) connection, i.e. does not wait at all.
+		{
+			bad := ""
+			allInstrs(fn, func(in ssa.Instruction) {
+				ret, ok := in.(*ssa.Return)
+				if !ok || bad != "" || len(ret.Results) < 2 || ret.Block().Comment == "recover" {
+					return
+				}
+				succ := false
+				for _, e := range expandValues(ret.Results[len(ret.Results)-1]) {
+					if isNilConst(e) {
+						succ = true
+					}
+				}
+				if !succ {
+					return
+				}
+				for _, v := range expandValues(ret.Results[0]) {
+					if mi, ok := v.(*ssa.MakeInterface); ok {
+						v = unwrapLoadAlloc(mi.X)
+					}
+					if isNilConst(v) {
+						continue
+					}
+					if isLoadOfField(v, fConn) {
+						continue
+					}
+					stored := false
+					for _, st := range w.Stores(fConn) {
+						if st.Parent() == fn && unwrapLoadAlloc(st.Val) == v && instrDominates(st, ret) {
+							stored = true
+						}
+					}
+					if !stored {
+						bad = w.pos(instrPos(ret))
+					}
+				}
+			})
+			c.decide(bad == "", "EXCL", name+"|the connection handed out is the one remembered", fn.Pos(), "every success return hands out the value held in mailboxConn",
+				"the connection returned at "+bad+" is not stored in mailboxConn: the next call waits on an older, already closed connection and hands out a second live one")
+		}
 		// on 'sid changed && previous exists': closer called and field nilled; constructor under conn == nil, refresh under conn != nil
 		changedLeg := func(b *ssa.BasicBlock) bool {
 			eq := hasFact(b, func(f Fact) bool {
@@ -822,7 +865,7 @@ func ruleC11Rest(c *Checker) {
 		rulePublishOrder(c, "SIDFRESH")
 		c.decide(okk, "SIDFRESH", "DoHandshake|SetRemote for version >= 2", dh.Pos(), "both parties publish the remote static key when the negotiated version is >= 2", "the remote key is not published exactly for version >= 2: the two sides move to different rendezvous points")
 	}
-	c.floor("EXCL", 8)
+	c.floor("EXCL", 10)
 	c.floor("SIDFRESH", 20)
 	c.floor("FRESH", 18)
 }
